@@ -346,6 +346,46 @@ example : (match tEnd.sub [2] with | .comp _ _ s _ => (s.calls 2, s.st 1) | .lea
 example : (match tEnd.sub [2, 1] with | .comp _ _ s _ => (s.calls 2, s.st 1, s.running) | .leaf => (1, .idle, [])) =
     (0, .failed, []) := by decide
 
+
+/-! ### pieces of the exception path outside the tree machine (each a finding on the pinned code) -/
+
+/-- repaired book-keeping: however often the child is asked before (any outcomes) and however often it is refused
+afterwards, once a run of it raised `e`, `e` is what is recorded — for every exception type `E` -/
+theorem C06_collect_keeps_original {E : Type} (pre post : List (Ask E)) (e : E)
+    (hpost : ∀ a ∈ post, a.isRefusal = true) :
+    (pre ++ [Ask.ran e] ++ post).foldl collectRepaired none = some e := by
+  rw [List.foldl_append, List.foldl_append]
+  simp only [List.foldl_cons, List.foldl_nil, collectRepaired]
+  induction post with
+  | nil => rfl
+  | cons a rest ih =>
+    have ha := hpost a (by simp)
+    cases a with
+    | ran x => simp [Ask.isRefusal] at ha
+    | refused r =>
+      simp only [List.foldl_cons, collectRepaired]
+      exact ih (fun b hb => hpost b (by simp [hb]))
+
+/-- pinned book-keeping: asked again after its run raised `1`, the refusal `2` is what remains -/
+theorem C06_collect_pinned_witness :
+    [Ask.ran 1, Ask.refused 2].foldl collectPinned none = some 2 ∧
+    [Ask.ran 1, Ask.refused 2].foldl collectRepaired none = some 1 := by decide
+
+/-- repaired `If`: a failed run announces `failed` and nothing else, whatever an earlier run left in `truth` -/
+theorem C06_if_failed_announces_failure_only (truth : Option Bool) : ifEmits true true truth = [.failed] := by
+  cases truth <;> simp [ifEmits]
+
+/-- pinned `If`: after an earlier run that found `True`, a failing run still fires the `true` branch -/
+theorem C06_if_pinned_witness : Sig.branch true ∈ ifEmits false true (some true) := by decide
+
+/-- repaired: the done-callback processes exactly what the local path processes -/
+theorem C06_callback_handles_what_local_handles (k : Kind) : handledInCallback true k = handledLocally k := by
+  cases k <;> rfl
+
+/-- pinned: a `KeyboardInterrupt` is a failure of a local run but not of an executor run -/
+theorem C06_callback_pinned_witness :
+    handledLocally .keyboardInterrupt = true ∧ handledInCallback false .keyboardInterrupt = false := by decide
+
 end PwVerif.C06
 
 #print axioms PwVerif.C06.C06_no_downstream
@@ -365,3 +405,9 @@ end PwVerif.C06
 #print axioms PwVerif.C06.C06_nest_class_independent
 #print axioms PwVerif.C06.C06_nest_progress
 #print axioms PwVerif.C06.C06_nest_flat
+#print axioms PwVerif.C06.C06_collect_keeps_original
+#print axioms PwVerif.C06.C06_collect_pinned_witness
+#print axioms PwVerif.C06.C06_if_failed_announces_failure_only
+#print axioms PwVerif.C06.C06_if_pinned_witness
+#print axioms PwVerif.C06.C06_callback_handles_what_local_handles
+#print axioms PwVerif.C06.C06_callback_pinned_witness
